@@ -953,7 +953,25 @@ func RuleR2c(c *Ctx) {
 				return true
 			}
 			n++
-			if !cf.MustAt(ret, hasFlag, nil, nil) {
+			// ... or, on the paths where the fact is missing, the result is known to be nil
+			res := ret.Results[0]
+			orNil := func(fa cfgx.Fact) bool {
+				if hasFlag(fa) {
+					return true
+				}
+				be, isBin := ast.Unparen(fa.Expr).(*ast.BinaryExpr)
+				if !isBin || !((be.Op == token.EQL && fa.Truth) || (be.Op == token.NEQ && !fa.Truth)) {
+					return false
+				}
+				x := be.X
+				if isNilIdentExpr(info, x) {
+					x = be.Y
+				} else if !isNilIdentExpr(info, be.Y) {
+					return false
+				}
+				return cfgx.SameExpr(info, x, res)
+			}
+			if !cf.MustAt(ret, orNil, nil, nil) {
 				ok = false
 			}
 			return true
@@ -1241,6 +1259,42 @@ func RuleR6(c *Ctx) {
 				if o := info.ObjectOf(nm); o != nil {
 					if pt, ok := o.Type().(*types.Pointer); ok && types.Identical(pt.Elem(), dirT) {
 						placed[o] = true
+					}
+				}
+			}
+		}
+		// a helper's parameter that its callers fill with something other than their own
+		// parameter (the current context read from the core, say) is not the placed one
+		if f != resolver {
+			idx := 0
+			for _, fl := range fd.Type.Params.List {
+				for _, nm := range fl.Names {
+					o := info.ObjectOf(nm)
+					i := idx
+					idx++
+					if !placed[o] {
+						continue
+					}
+					for _, cs := range c.callSitesOf(f) {
+						if i >= len(cs.Call.Args) {
+							continue
+						}
+						ccf := c.CFG(cs.Pk, cs.Body)
+						arg, _ := ast.Unparen(ccf.Resolve(cs.Call.Args[i])).(*ast.Ident)
+						isParam := false
+						if arg != nil && cs.Decl != nil {
+							ao := cs.Pk.TypesInfo.ObjectOf(arg)
+							for _, cfl := range cs.Decl.Type.Params.List {
+								for _, cnm := range cfl.Names {
+									if cs.Pk.TypesInfo.ObjectOf(cnm) == ao {
+										isParam = true
+									}
+								}
+							}
+						}
+						if !isParam {
+							delete(placed, o)
+						}
 					}
 				}
 			}
